@@ -1167,6 +1167,53 @@ func (syncEngine) Generate(rng *rand.Rand, tier string) []core.Case {
 		}
 		fin(g, "valid-evolution", "recovery-window")
 	}
+	// start-up path, densely: every few steps the wallet is stopped, the backend extends or reorganises (wallet
+	// transactions in the stale blocks, some mined again on the new branch), and the wallet restarts — alternately
+	// with and without a recovery window
+	for i := 0; i < n/4; i++ {
+		recw := 0
+		if i%2 == 1 {
+			recw = 1 + rng.Intn(5)
+		}
+		g := mk(recw)
+		for j := 0; j < steps/2; j++ {
+			if j%4 == 3 {
+				g.offline(recw)
+			} else {
+				g.step(false, recw)
+			}
+		}
+		fin(g, "valid-evolution", "dense-restarts")
+	}
+	// recovery in more than one batch (recoveryBatchSize = 2000 is a constant of the wallet): the backend grows by
+	// 2100 blocks while the wallet is stopped, wallet transactions on both sides of the batch boundary
+	{
+		g := mk(2)
+		for j := 0; j < 3; j++ {
+			g.extend()
+		}
+		g.emit("stop")
+		g.running = false
+		for j := 0; j < 2100; j++ {
+			if j >= 1990 && j < 2005 {
+				g.extend()
+				continue
+			}
+			id := g.nextBlk
+			g.nextBlk++
+			g.blocks[id] = &gblock{id: id, parent: g.tip(), height: len(g.best)}
+			g.emit("blk id=%d parent=%d t=%d txs=", id, g.tip(), gt+int64(len(g.best))*600)
+			g.best = append(g.best, id)
+			g.emit("ext id=%d mode=a", id)
+		}
+		g.emit("start recw=2")
+		g.running = true
+		g.emit("hashes from=1980 to=2110")
+		for j := 0; j < 8; j++ {
+			g.step(true, 2)
+		}
+		fin(g, "valid-evolution", "recovery-two-batches")
+	}
 	// notification coalescing: pure rollbacks (empty branch), repeated connects, equal-length reorgs and the
 	// BlockConnected-before-RelevantTx order, which leave entries pending in the NotificationServer
 	for i := 0; i < n/3; i++ {
